@@ -156,6 +156,28 @@ func c08GenDoc(r *rand.Rand, o genOpts) map[string]any {
 	if r.Intn(8) == 0 { // records in lists nested three deep
 		m[o.keys[r.Intn(len(o.keys))]] = []any{[]any{[]any{map[string]any{"name": "n000"}}, []any{map[string]any{"name": "n010"}, map[string]any{"name": "n011", "v": 1}}}, []any{[]any{map[string]any{"name": "n100"}}}}
 	}
+	if o.pointerRoute && r.Intn(5) == 0 { // a member with the empty name in the middle of a path
+		m[o.keys[r.Intn(len(o.keys))]] = []any{
+			map[string]any{"": map[string]any{"p": 1, "h": "x"}, "q": 2, "p": 3},
+			map[string]any{"srv": map[string]any{"": map[string]any{"port": 1}, "port": 2}},
+			[]any{map[string]any{"": map[string]any{"a": 1}, "a": 2}},
+		}[r.Intn(3)]
+	}
+	if !o.pointerRoute && r.Intn(6) == 0 { // a member with the empty name below the root, next to named ones and inside a record of a list
+		m[o.keys[r.Intn(len(o.keys))]] = []any{
+			map[string]any{"": "default", "name": "n1", "port": 80},
+			map[string]any{"": map[string]any{"p": 1}, "q": 2},
+			[]any{map[string]any{"": 1, "a": 2}, map[string]any{"b": 3}},
+			map[string]any{"": 1},
+		}[r.Intn(4)]
+	}
+	if !o.pointerRoute && r.Intn(6) == 0 { // numbers of sized and unsigned Go kinds, as documents built in code carry them
+		m[o.keys[r.Intn(len(o.keys))]] = []any{
+			map[string]any{"i64": int64(5), "u8": uint8(7), "l": []any{int32(3), uint16(9)}},
+			map[string]any{"big": uint64(18446744073709551615), "half": uint64(1) << 63, "f32": float32(1.5)},
+			[]any{int64(-4), map[string]any{"n": int8(-8), "u": uint(6)}},
+		}[r.Intn(3)]
+	}
 	if r.Intn(6) == 0 { // a list of records, the shape lists of a manifest have
 		n := 1 + r.Intn(3)
 		recs := make([]any, n)
@@ -180,10 +202,16 @@ func c08ApplyDiff(l, rr map[string]any) Case {
 	}); pn != "" {
 		return Case{Kind: "applydiff", Desc: map[string]any{"l": l, "r": rr, "panic": pn}, Fail: []string{"panic in Apply(Diff): " + pn}, Nontrivial: true}
 	}
-	fl, _ := flatPlain(L)
-	fr, _ := flatPlain(R)
+	fl, rawL := flatPlain(L)
+	fr, rawR := flatPlain(R)
 	if !reflect.DeepEqual(fl, fr) {
 		fail = append(fail, "Flatten(Apply(R, Diff(L,R))) != Flatten(L)")
+	} else {
+		for k, lv := range rawL { // the very values, kind included
+			if !reflect.DeepEqual(lv.Value(), rawR[k].Value()) {
+				fail = append(fail, fmt.Sprintf("after Apply(R, Diff(L,R)) the leaf %q holds %T(%v), L holds %T(%v)", k, rawR[k].Value(), rawR[k].Value(), lv.Value(), lv.Value()))
+			}
+		}
 	}
 	got := nodeToAny(R)
 	// the same modifications as JSON patch operations give the same document (xform link)
@@ -202,7 +230,7 @@ func c08ApplyMods(d map[string]any, mods []diff.Modification, kind string) Case 
 		return Case{Kind: kind, Desc: map[string]any{"d": d, "mods": modsDesc(mods), "panic": pn}, Fail: []string{"panic in Apply: " + pn}, Nontrivial: true}
 	}
 	got := nodeToAny(D)
-	if len(mods) == 0 && !reflect.DeepEqual(got, any(d)) {
+	if len(mods) == 0 && !reflect.DeepEqual(got, nodeToAny(anyToContainer(d))) {
 		fail = append(fail, "Apply(d, []) changed d")
 	}
 	if len(mods) == 1 && mods[0].Type != diff.ModDelete {
@@ -242,7 +270,7 @@ func c08DeleteAbsent(r *rand.Rand, d map[string]any) Case {
 	if len(c.Fail) == 0 {
 		D2 := anyToContainer(d)
 		diff.Apply(D2, []diff.Modification{{Type: diff.ModDelete, Path: p}})
-		if !reflect.DeepEqual(nodeToAny(D2), any(d)) {
+		if !reflect.DeepEqual(nodeToAny(D2), nodeToAny(anyToContainer(d))) {
 			c.Fail = append(c.Fail, "Apply(d, [Delete p]) with p absent changed d")
 		}
 	}
@@ -257,6 +285,13 @@ func c08ViaPatch(l, rr map[string]any) Case {
 		mods := *diff.Diff(L, R)
 		diff.Apply(R, mods)
 		for _, m := range mods {
+			if strings.HasPrefix(m.Path, ".") || strings.HasSuffix(m.Path, ".") {
+				// a path that starts or ends with the separator (a member with the empty name at either end) is
+				// read without it on the property-path route: the two routes are only compared elsewhere
+				fail = nil
+				R2 = nil
+				return
+			}
 			op := xform.DiffMod2PatchOp(m)
 			if err := patch.Do(op, R2); err != nil {
 				// RFC 6902 add needs an existing parent: only compare when every op applies
@@ -282,7 +317,7 @@ func c08ViaPatch(l, rr map[string]any) Case {
 func init() {
 	register(&Prop{
 		ID:   "C08",
-		Rule: "kinds: applydiff (L generated with every list item containing a scalar; R derived from L by deleting keyed subtrees, adding new keyed subtrees under fresh keys and replacing lists by other lists, incl. lists of more than ten items so that a[10] sorts before a[2]; Flatten(Apply(R,Diff(L,R))) == Flatten(L) on the Go side, whole resulting document vs the Coq model), apply-one (single Add/Change at a flatten-style path then Lookup), apply-nil, delete-absent, via-patch (xform.DiffMod2PatchOp + patch.Do). Non-trivial: diff has >= 2 modification kinds. Distinct by Gallina term. Documents also hold empty mappings reachable through mappings and lists of records; R may differ from L in a single leaf inside a record of an equally long list. Records in lists nested three deep; single Adds at paths with index chains of three and four. Flatten() and Search() of R are called before Apply.",
+		Rule: "kinds: applydiff (L generated with every list item containing a scalar; R derived from L by deleting keyed subtrees, adding new keyed subtrees under fresh keys and replacing lists by other lists, incl. lists of more than ten items so that a[10] sorts before a[2]; Flatten(Apply(R,Diff(L,R))) == Flatten(L) on the Go side, whole resulting document vs the Coq model), apply-one (single Add/Change at a flatten-style path then Lookup), apply-nil, delete-absent, via-patch (xform.DiffMod2PatchOp + patch.Do). Non-trivial: diff has >= 2 modification kinds. Distinct by Gallina term. Documents also hold empty mappings reachable through mappings and lists of records; R may differ from L in a single leaf inside a record of an equally long list. Records in lists nested three deep; single Adds at paths with index chains of three and four. Flatten() and Search() of R are called before Apply. Documents hold members with the empty name below the root (in mappings and in records of lists) and numbers of sized and unsigned Go kinds; after Apply every leaf is compared with L's value and kind.",
 		Corpus: func() []Case {
 			return []Case{
 				c08ApplyDiff(map[string]any{"a": []any{map[string]any{"x": 1, "y": 2}}}, map[string]any{"a": []any{map[string]any{"z": 1}}}), // pinned-tree defect
